@@ -22,18 +22,18 @@ import (
 // C12 — every client request resolves exactly once, whatever the server does.
 
 type c12Case struct {
-	N       int      `json:"n"`                // requests
-	Bodies  []int    `json:"bodies"`           // request body sizes
-	RespLen []int    `json:"resplen"`          // response body sizes
-	Splits  []int    `json:"splits,omitempty"` // response header block cuts
-	Muts    []c17Mut `json:"muts,omitempty"`   // frame-wise mutations of the recorded response stream
-	Adv     string   `json:"adv,omitempty"`    // scripted adversary inserted into the stream
-	AdvAt   int      `json:"advat,omitempty"`  // frame index where it goes
-	CutAt   int      `json:"cut"`              // deliver this many octets of the response stream (mod len+1); -1 all
-	End     string   `json:"end"`              // after the (possibly cut) stream: "silence", "close", "reset"
-	FailW   int      `json:"failw,omitempty"`  // >0: the client's writes fail after this many octets
+	N       int      `json:"n"`                 // requests
+	Bodies  []int    `json:"bodies"`            // request body sizes
+	RespLen []int    `json:"resplen"`           // response body sizes
+	Splits  []int    `json:"splits,omitempty"`  // response header block cuts
+	Muts    []c17Mut `json:"muts,omitempty"`    // frame-wise mutations of the recorded response stream
+	Adv     string   `json:"adv,omitempty"`     // scripted adversary inserted into the stream
+	AdvAt   int      `json:"advat,omitempty"`   // frame index where it goes
+	CutAt   int      `json:"cut"`               // deliver this many octets of the response stream (mod len+1); -1 all
+	End     string   `json:"end"`               // after the (possibly cut) stream: "silence", "close", "reset"
+	FailW   int      `json:"failw,omitempty"`   // >0: the client's writes fail after this many octets
 	CloseAt int      `json:"closeat,omitempty"` // Client.Close(): 0 never, 1 before the requests are answered, 2 after the stream was delivered, 3 concurrently with new RoundTrips
-	Follow  int      `json:"follow"`           // follow-up requests on a fresh connection afterwards
+	Follow  int      `json:"follow"`            // follow-up requests on a fresh connection afterwards
 }
 
 const c12Timeout = 250 * time.Millisecond
